@@ -459,7 +459,7 @@ def check_bodies(run, tree):
 
 
 # =============================================================================== particles
-def check_part_header(run, tree):
+def check_part_header(run, tree, only_read_vs_skip=False):
     cq = "io/part.py::PartReader"
     res = {}
     for read_mode in (True, False):
@@ -478,6 +478,13 @@ def check_part_header(run, tree):
         return
     m, sh, info = res[True]
     run.analysed(m)
+    if only_read_vs_skip:
+        d_r = res[True][1]["offsets"].snapshot()
+        d_s = res[False][1]["offsets"].snapshot()
+        same = all((d_r.get(k, Poly()) - d_s.get(k, Poly())).t == {} for k in set(d_r) | set(d_s))
+        run.ob(cq + ".read_header::read-vs-skip", same, m.where(), "counters after reading every variable %s after skipping every variable" % (
+            "equal those" if same else "DIFFER from those"), "omitting a particle variable shifts the ones that follow")
+        return
     evs = sh["events"]
     fixed, total_fixed = spec_positions(L.PART_HEADER_FIXED)
     # nparticles from the third record
